@@ -507,6 +507,39 @@ PROPS["C14"] = dict(
     note="Bounded; environment model as above. Trusted: engine, z3.",
 )
 
+def _c07_runs(tier):
+    runs = []
+    for d, cfg in (("mysql", _my), ("postgres", _pg), ("sqlite", _lt)):
+        names = ["atlas_n1", "atlas_t1", "plain", "foreign"]
+        if tier == "thorough":
+            names += ["atlas", "atlas_names2"]
+        for g in names:
+            runs.append(dict(cfg, harness=f"VerifHarness_C07_{d}_{g}", reach=["read"], cross=(g not in ("atlas", "atlas_names2"))))
+    runs.append(dict(_my, harness="VerifHarness_C07_mysql_witness_reader", role="witness", key="C07-mysql-foreign-reader-escapes"))
+    return runs
+
+PROPS["C07"] = dict(
+    _my,
+    runs={"quick": _c07_runs("quick"), "thorough": _c07_runs("thorough")},
+    bounds={
+        "quick": "per dialect (MySQL, PostgreSQL, SQLite): a one-table plan (CREATE TABLE with primary key, default, comment, plus CREATE INDEX) whose "
+                 "table and column names end in 1 fully symbolic byte (texts concrete), or whose default literal and column comment end in 1 fully "
+                 "symbolic byte (names concrete); formatters: Atlas default; golang-migrate and flyway (plain files); goose and dbmate (own readers); "
+                 "read back with migrate.FileStmts and the dialect driver's ScanStmts",
+        "thorough": "same plus names and texts symbolic together (1 byte each) and 2-byte names",
+    },
+    assumptions=[
+        "the default value is given as an HCL document gives it (raw text in schema.Literal, quoted by the planner)",
+        "formatter templates evaluated by the engine's template evaluator on the real parsed trees",
+    ],
+    outside="plans of several tables / other change kinds, the Liquibase format (no reader), enterprise BEGIN...END bodies, the import command, "
+            "longer symbolic strings, enum values (see C15 finding)",
+    claim="For every value of the symbolic bytes (quotes, semicolons, comment markers, backslashes, newlines, non-ASCII included) the statements read back "
+          "from the written file are exactly the planned commands, same count, order and text, for each formatter/reader pair; the goose / dbmate readers on "
+          "MySQL texts that need backslash-escape awareness are the listed known finding.",
+    note="Bounded by string length and the one-table plan. Trusted: engine (incl. strconv.Quote run from source), template evaluator, z3.",
+)
+
 NOT_APPLICABLE = {
     "C01": "needs a real SQLite engine executing the planned SQL and pragma-based inspection; neither cgo code nor SQLite's DDL "
            "semantics can be encoded by an SSA-level symbolic executor, and a hand-written catalogue model would verify the model, not Atlas "
